@@ -15,10 +15,14 @@
      R<field>         read that attribute (after construction)
      H<name> V<value> W<value> Y<text> Z<text>    (m.from_email_doc only) what the email package delivers for the document: see RunEmail.v
 
+     (m.heap only; <key> and the items of one operation are separated by U+001F, operations and reads are executed in argument order)
+     R<field>         read        a<key>[^_<item>]*  caller: d[key] = [items]          d<key>  caller: del d[key]
+     m<key>[^_<item>]*  caller: d[key][:] = [items] when d[key] is a list     h<key>[^_<item>]*  holder: getattr(m, key)[:] = [items] when it was read and is a list
+
    The model run is MetaModel3.v (three-valued oracles, AttributeError for non-fields, sorted iteration order). *)
 From Coq Require Import List NArith Bool String.
 Import ListNotations.
-Require Import Show MetaTable MetaBase MetaShow MetaModel MetaModel3 EmailModel MetaEmailModel RunEmail.
+Require Import Show MetaTable MetaBase MetaShow MetaModel MetaModel3 MetaHeap EmailModel MetaEmailModel RunEmail.
 Open Scope N_scope.
 
 Record oentry := { oe_comp : N; oe_key : list N; oe_v : option (list N); oe_c : option (list N); oe_w : option (list N); oe_x : option (list N) }.
@@ -111,8 +115,35 @@ Definition obs_from_email_doc (args : list (list N)) : list N :=
   let O := oracles_of (p_or st) in
   show_fr O (from_email_doc O (parse_bool (nth_str 0 args)) (ep_items ep) (ep_payload ep)) (p_reads st).
 
+(* m.heap: the heap model (MetaHeap.v): from_raw(validate=False) on the caller's dict object, then reads interleaved with in-place changes;
+   output = the reads, then "#" and the caller's dict as it is at the end *)
+Definition heap_op (tok : list N) : list hop :=
+  match tok with
+  | [] => []
+  | tag :: body =>
+      let parts := split_on 31 body in
+      let key := hd [] parts in
+      let items := tl parts in
+      if tag =? 82 then [HRead body]
+      else if tag =? 97 then [HSet key items]
+      else if tag =? 100 then [HDel body]
+      else if tag =? 109 then [HMutCaller key items]
+      else if tag =? 104 then [HMutResult key items]
+      else []
+  end.
+Definition show_rawv (v : rawv) : list N :=
+  match v with VStr s => show_s s | VList l => show_list l | VDict d => show_dict d end.
+Definition obs_heap (args : list (list N)) : list N :=
+  let st := parse_tokens (tl args) in
+  let O := oracles_of (p_or st) in
+  let w := world_of (rev (p_data st)) in
+  let '(w2, _, rs) := hrun O caller_loc (from_raw_h w caller_loc) (flat_map heap_op (tl args)) in
+  join bar (asc "OK" :: map show_res rs) ++ [35] ++
+  join [59] (map (fun kv => show_s (fst kv) ++ [61] ++ show_rawv (snd kv)) (deref w2 (odict (lookup caller_loc (w_dicts w2))))).
+
 Definition run_meta (cmd : list N) (args : list (list N)) : option (list N) :=
   if seqb cmd (asc "m.from_raw") then Some (obs_from_raw args)
   else if seqb cmd (asc "m.from_email") then Some (obs_from_email args)
   else if seqb cmd (asc "m.from_email_doc") then Some (obs_from_email_doc args)
+  else if seqb cmd (asc "m.heap") then Some (obs_heap args)
   else None.
